@@ -228,7 +228,14 @@ def rand_feature_parts(rng, n, kind=None, strand="any"):
     """a location over a record of length n in one of the shapes of DESIGN section 3"""
     if strand == "any":
         strand = rng.choice([1, -1, None])
-    kind = kind or rng.choice(["simple", "simple", "wrapjoin", "join", "whole", "past"])
+    kind = kind or rng.choice(["simple", "simple", "wrapjoin", "join", "whole", "past", "site"])
+    if kind == "site":
+        # a between-base site (GenBank a^b): zero-length location, alone or as a part of a join
+        a = rng.randrange(n + 1)
+        if rng.random() < 0.3 and n >= 4:
+            b = rng.randrange(n + 1)
+            return [[min(a, b), min(a, b), strand], [max(a, b), max(a, b), strand]], "site"
+        return [[a, a, strand]], "site"
     if kind == "whole" or n < 2:
         return [[0, n, strand]], "whole"
     if kind == "simple":
